@@ -20,6 +20,7 @@ from vlib.core import zlit, zlist, blit, optlit
 
 UNITS = 2048                     # model keys per second
 T0_KEY = 1000 * UNITS            # virtual epoch of every history: 1000 s
+MAX_KEY = 2 ** 36                # the virtual clock stays below 2^25 s (exact floats, small literals)
 VARIANTS = ('generic', 'sardara', 'mistral')
 KINDS = {'_start_now': 0, '_stop_now': 1, '_setup': 2, '_target_sweep': 3, '_vna_sweep': 4}
 KIND_NAMES = ['start', 'stop', 'setup', 'target-sweep', 'vna-sweep']
@@ -65,6 +66,7 @@ class VTimer:
         self.daemon = False
         self.due = None
         self.seq = None
+        self.weird = False
         self.wheel = VTimer.wheel
 
     def start(self):
@@ -74,6 +76,7 @@ class VTimer:
         w.seq += 1
         self.seq = w.seq
         iv = self.interval
+        self.weird = isinstance(iv, float) and not math.isfinite(iv)
         if isinstance(iv, float) and math.isnan(iv):
             # Event.wait(nan) returns at once: the real Timer fires immediately
             self.due = w.clock.key
@@ -84,7 +87,8 @@ class VTimer:
                 return
             self.due = w.clock.key
         else:
-            self.due = max(key_of(Fraction(w.clock.time()) + Fraction(iv)), w.clock.key)
+            # like threading.Timer: the deadline is the float sum clock + interval
+            self.due = max(key_of(w.clock.time() + iv), w.clock.key)
         self.state = 'live'
         w.live.append(self)
 
@@ -133,6 +137,10 @@ class Wheel:
 
     def snapshot(self):
         return [(t.kind(), t.due) for t in sorted(self.live, key=lambda t: t.seq)]
+
+    def regular_dues(self):
+        """due keys of the live start/stop timers created with a finite interval"""
+        return [t.due for t in self.live if t.kind() in (0, 1) and not t.weird]
 
 
 class Env:
@@ -274,6 +282,7 @@ class History:
         self.times = {}
         self.log = []                 # python-level record for the oracle / replays
         self.ts_keys = set()
+        self.inexact = False
         self.note_time()
         self.acs = env.gb.ACS_TO_UNIX_TIME
 
@@ -289,6 +298,15 @@ class History:
                 self.toks.append(t)
         outs = feed(self.system, data)
         sn = self.snap()
+        for t in self.toks:
+            try:
+                x = float(t) / self.acs
+            except ValueError:
+                continue
+            if math.isfinite(x):
+                self.ts_keys.add(key_of(x))
+        if any(d not in self.ts_keys for d in self.env.wheel.regular_dues()):
+            self.inexact = True
         self.evs.append('XBytes %s [%s] %s' % (
             zs(data), '; '.join('(%s, %s)' % (zlit(i), zs(r)) for i, r in outs), snap_term(sn)))
         self.log.append(('bytes', data, outs, sn))
@@ -320,22 +338,10 @@ class History:
         self.log.append(('failure', f, None, sn))
 
     def exact(self):
-        """False when a live start/stop timer is due one key away from the key of a timestamp token of the
-        case, i.e. the float subtraction/addition of the interval crossed a clock instant (never seen; such
-        a case is skipped and counted, not compared)"""
-        keys = set()
-        for t in self.toks:
-            try:
-                x = float(t) / self.acs
-            except ValueError:
-                continue
-            if math.isfinite(x):
-                keys.add(key_of(x))
-        for ev in self.log:
-            for k, d in ev[3]['live']:
-                if k in (0, 1) and d not in keys and any(abs(d - q) <= 2 for q in keys):
-                    return False
-        return True
+        """False when a live start/stop timer (finite interval) is not due exactly at the key of one of the
+        case's timestamp tokens: the float subtraction/addition of the interval was inexact (timestamps
+        beyond 2^43 s).  Such a case is skipped and counted, not compared."""
+        return not self.inexact
 
     def term(self):
         v = VARIANTS.index(self.variant)
@@ -420,7 +426,7 @@ def time_arg(rng, hist):
               61 * UNITS, 300 * UNITS, 400 * UNITS]
     key = now + rng.choice(deltas)
     if r < 0.22:
-        live = hist.env.wheel.snapshot()
+        live = [t for t in hist.env.wheel.snapshot() if t[1] < MAX_KEY]
         if live:
             key = rng.choice(live)[1] + rng.choice([-2, 0, 2])
             key += key % 2
@@ -539,7 +545,7 @@ def next_line(rng, hist, p_bad=0.22, p_reply=0.1):
 
 def advance_target(rng, hist):
     now = hist.env.clock.key
-    live = hist.env.wheel.snapshot()
+    live = [t for t in hist.env.wheel.snapshot() if t[1] < MAX_KEY]
     r = rng.random()
     if live and r < 0.6:
         due = rng.choice(live)[1]
@@ -551,12 +557,13 @@ def advance_target(rng, hist):
         key = now + rng.choice([0, 2, UNITS // 4, UNITS, 5 * UNITS, 60 * UNITS, 61 * UNITS, 299 * UNITS,
                                 300 * UNITS, 1000 * UNITS])
     key -= key % 2
-    return max(key, now)
+    return min(max(key, now), max(now, MAX_KEY))
 
 
-def gen_history(rng, env, variant, length, p_stop=0.04, p_fail=0.03, chunked=0.25):
-    """one random history; returns the History"""
-    h = History(env, variant)
+def gen_history(rng, env, variant, length, p_stop=0.04, p_fail=0.03, chunked=0.25, h=None):
+    """one random history (continuing `h` when given); returns the History"""
+    if h is None:
+        h = History(env, variant)
     carry = ''
     for _ in range(length):
         r = rng.random()
